@@ -1,5 +1,6 @@
 """C10 — every outcome is a well-formed, serialisable response."""
 import ast
+import re
 
 from .. import shapes, excflow, boolx
 from ..model import AnalysisError, own_nodes, norm_stmt
@@ -59,6 +60,74 @@ def check(prog, run):
                     run.report(r, "%s:%s.to_dict:message-filtered" % (EXC, c.name), td.where(n),
                                "entries are dropped with `if %s`, including \"message\" when it is empty: an error without a "
                                "message is not a valid response error" % cond)
+
+    # ---- K12 JSON kinds by construction
+    r12 = run.rule("K12", "every value a to_dict in exc.py stores in the dictionary it returns is of a JSON kind by construction: a constant, "
+                          "str()/int()/float()/bool()/dict()/list()/sorted(), a dict / list display or comprehension, a local, or an attribute "
+                          "whose constructor parameter is not declared Mapping / Any / Iterable - a caller-supplied mapping (the extensions "
+                          "of ResolverError may be any Mapping) is copied into a plain dict, or json.dumps rejects the response", 8)
+
+    def declared(c, attr, depth=0):
+        """annotation text of the constructor parameter that `self.<attr>` is assigned from, in c or its bases"""
+        init = c.methods.get("__init__")
+        if init is not None:
+            for n in own_nodes(init.node):
+                if isinstance(n, ast.Assign) and any(ast.unparse(t) == "self.%s" % attr for t in n.targets) and isinstance(n.value, ast.Name):
+                    for a in init.node.args.args + init.node.args.kwonlyargs:
+                        if a.arg == n.value.id and a.annotation is not None:
+                            return ast.unparse(a.annotation)
+        for b in getattr(c, "bases", []) if depth < 4 else []:
+            bc = m.classes.get(b) if isinstance(b, str) else b
+            if bc is not None and bc is not c:
+                d = declared(bc, attr, depth + 1)
+                if d is not None:
+                    return d
+        return None
+
+    def json_kind(c, e):
+        """None when e is of a JSON kind by construction, else the reason it is not"""
+        if isinstance(e, (ast.Constant, ast.Name, ast.Dict, ast.List, ast.ListComp, ast.DictComp, ast.JoinedStr, ast.Tuple)):
+            return None
+        if isinstance(e, ast.BinOp) and isinstance(e.op, (ast.Mod, ast.Add)):
+            return None
+        if isinstance(e, ast.IfExp):
+            return json_kind(c, e.body) or json_kind(c, e.orelse)
+        if isinstance(e, ast.BoolOp):
+            return next((x for x in (json_kind(c, v) for v in e.values) if x), None)
+        if isinstance(e, ast.Call):
+            fn = ast.unparse(e.func)
+            if fn in ("str", "int", "float", "bool", "dict", "list", "sorted", "len", "repr") or fn.endswith(".to_dict") or fn.endswith(".format") \
+                    or fn.endswith(".join") or fn in ("stringify_path",):
+                return None
+            return "the result of `%s(...)`" % fn
+        if isinstance(e, ast.Attribute) and isinstance(e.value, ast.Name) and e.value.id == "self":
+            d = declared(c, e.attr)
+            if d is None:
+                return None
+            if re.search(r"\b(Mapping|MutableMapping|Any|Iterable|Iterator|Set|FrozenSet)\b", d.split("[")[0] if not d.startswith("Optional[") else d[len("Optional["):].split("[")[0]):
+                return "`self.%s`, declared %s" % (e.attr, d)
+            return None
+        return None
+    for c in m.classes.values():
+        td = c.methods.get("to_dict")
+        if td is None:
+            continue
+        stored = []
+        for n in ast.walk(td.node):
+            if isinstance(n, ast.Dict):
+                stored.extend(v for v in n.values if v is not None)
+            elif isinstance(n, ast.Tuple) and len(n.elts) == 2 and isinstance(n.elts[0], ast.Constant) and isinstance(n.elts[0].value, str) \
+                    and isinstance(getattr(n, "_parent", None), ast.Tuple):
+                stored.append(n.elts[1])
+            elif isinstance(n, ast.Assign) and any(isinstance(t, ast.Subscript) for t in n.targets):
+                stored.append(n.value)
+        for v in stored:
+            why = json_kind(c, v)
+            r12.instance("%s.to_dict stores `%s`: %s" % (c.name, " ".join(ast.unparse(v).split())[:60], "JSON kind" if why is None else why))
+            if why is not None:
+                run.report(r12, "%s:%s.to_dict:not-json(%s)" % (EXC, c.name, " ".join(ast.unparse(v).split())[:40]), td.where(v),
+                           "%s.to_dict puts %s into the response as it is: an arbitrary mapping (MappingProxyType, a custom Mapping) is "
+                           "not serialisable by json.dumps, so the response is not strict JSON" % (c.name, why))
 
     # ---- K5 locations derived through index_to_loc(node.source, node.loc[0])
     r = run.rule("K5", "located errors derive (line, column) through index_to_loc(node.source, node.loc[0]) only for nodes that "
